@@ -53,12 +53,12 @@ def _C02():
 
 
 def _C18():
-    return {"arms": [_hist("C18", 30000, 1200000)], "level": "exploration", "rule": RULE_HIST,
+    return {"arms": [_hist("C18", 30000, 1200000), _cpp("C18", 48, 2000)], "level": "exploration", "rule": RULE_HIST,
             "assumptions": ASSUME_REF, "real_stub": REAL_STUB_PY}
 
 
 def _C19():
-    return {"arms": [_hist("C19", 30000, 1200000)], "level": "exploration", "rule": RULE_HIST,
+    return {"arms": [_hist("C19", 30000, 1200000), _cpp("C19", 48, 2000)], "level": "exploration", "rule": RULE_HIST,
             "assumptions": ASSUME_REF, "real_stub": REAL_STUB_PY}
 
 
@@ -105,7 +105,8 @@ def _C15():
 
 def _C04():
     from props import order
-    return {"arms": [Arm(order, "order", 6000, 300000, label="S-ORDER"), _hist("C04", 12000, 500000)],
+    return {"arms": [Arm(order, "order", 6000, 300000, label="S-ORDER"), _hist("C04", 12000, 500000),
+                     _cpp("C04", 32, 1500)],
             "level": "exploration",
             "rule": RULE_ORDER + "; second arm (S-HIST worlds): every struct/union of every prophy-language world is "
                     "compared (prophyc model node and generated Python class vs reference layout) and every encoding of a "
@@ -181,3 +182,72 @@ def _C13():
                 "step clock budget 1500000 + 12000 line events per input character (about 40x a valid compile)",
                 "inputs are valid UTF-8 text"],
             "real_stub": REAL_STUB_PY}
+
+
+RULE_CPP = ("each run draws a schema the C++ full generator accepts, compiles it with the real prophyc, builds the "
+            "generated .ppf.cpp + shipped headers + a generic driver with clang++ -O0 -fsanitize=address,undefined, and "
+            "drives the peer in lock-step: per composite type and value the intact reference encoding in little, big "
+            "and native order (control arm), objects built without decode incl. limited arrays over their limit (build "
+            "arm), and the fault enumeration of sim/link.py (every prefix <= 96 B, every bit <= 12 B else 24 drawn, every "
+            "control word x boundary values, pairs, trailing bytes, random strings) in both byte orders; distinct = "
+            "distinct (schema shape, fault kind, kind of byte range hit, outcome) tuples; non-trivial = more than 10 requests")
+
+REAL_STUB_CPP = {
+    "real": ["prophyc (parser, model, cpp_full generator, python generator) in-process", "generated .ppf.hpp/.ppf.cpp",
+             "every header under prophy_cpp/include (encoder, decoder, message, optional, array, align, printer)",
+             "prophy Python runtime (writer side, cross-check reader)"],
+    "stub": ["the link (pure function applying faults to stored bytes)", "driver main() of the peer (request loop, heap "
+             "copies of exact size, replaced operator new as allocation meter)", "file system of the compiler run (in-memory)"],
+}
+ASSUME_CPP = ASSUME_REF + [
+    "the peer is a separate process (ASan cannot be loaded into CPython): lock-step, single-threaded, no clock, output a "
+    "pure function of its input",
+    "x86-64, clang++ 14; native byte order = little",
+    "allocation budget of a decode: 65536 + 1024 bytes per input byte in total; a single request above 256 MiB is "
+    "refused by the meter",
+    "types whose image contains optional<struct holding a std::vector> run only the control arm (known finding C03/"
+    "optional-of-struct-holding-vector)"]
+
+
+def _cpp(prop, q, t):
+    from props import linkcpp
+    return Arm(linkcpp, "linkcpp", q, t, label="S-LINK/C++")
+
+
+def _C03():
+    return {"arms": [_cpp("C03", 64, 3000)], "level": "exploration", "rule": RULE_CPP, "assumptions": ASSUME_CPP,
+            "real_stub": REAL_STUB_CPP}
+
+
+def _C05():
+    return {"arms": [_cpp("C05", 64, 3000)], "level": "exploration", "rule": RULE_CPP, "assumptions": ASSUME_CPP,
+            "real_stub": REAL_STUB_CPP}
+
+
+def _C07():
+    return {"arms": [_cpp("C07", 64, 3000)], "level": "fault_enumeration", "rule": RULE_CPP, "assumptions": ASSUME_CPP,
+            "real_stub": REAL_STUB_CPP}
+
+
+RULE_RULES = ("each run draws a valid schema (features the C++ generators accept) and either leaves it valid or appends "
+              "ONE definition breaking ONE documented composability rule (34 rule kinds: unlimited/greedy not last, "
+              "unlimited or dynamic element type in each array kind / optional / union arm, sizer missing / late / "
+              "optional / non-integer / enum, duplicate type / field / enumerator / constant / discriminator / arm, "
+              "non-positive array size or limit, enumerator or discriminator negative or above 32 bits, optional bytes); "
+              "valid schemas are compiled with all three generators, imported, and (every 12th) compiled with g++ "
+              "-fsyntax-only against the shipped headers; distinct = distinct (schema shape, rule) pairs")
+
+
+def _C12():
+    from props import rules
+    return {"arms": [Arm(rules, "rules", 8000, 300000, label="S-COMP/rules"), _cpp("C12", 16, 600)],
+            "level": "exploration", "rule": RULE_RULES + "; second arm: the worlds of the C++ peer simulation (generated "
+            "C++ full codec built with clang++ against the shipped headers)",
+            "assumptions": ["the rule list is a transcription of the notes in docs/schema.rst and docs/encoding.rst",
+                            "rule breakers are written in the prophy language, where the documentation states the rules; "
+                            "the isar and sack front-ends do not validate composability at all (they only warn about "
+                            "unknown types) and are outside this arm",
+                            "three rules cannot be expressed in the grammar at all (array or optional in a union arm, "
+                            "optional array) and are counted as valid runs"],
+            "real_stub": dict(REAL_STUB_PY, real=REAL_STUB_PY["real"] + ["cpp and cpp_full generators", "g++ -fsyntax-only / "
+                              "clang++ build of generated C++ against prophy_cpp/include"])}
